@@ -328,6 +328,8 @@ def build_matmul(c):
             perm = list(range(1, n)) + [0]
         elif t == "batch":
             perm = list(range(1, n - 1)) + [0, n - 1]
+        elif t == "last2b":
+            perm = [1, 0, 3, 2]
         else:
             raise ValueError(t)
         # source shape such that Transpose(src, perm) has shape `base`
